@@ -488,11 +488,11 @@ impl Interpreter {
                 state.stack.push_bigint(biggest)?;
             }
             OpCodes::OP_WITHIN => {
-                let x = state.stack.pop_bigint()?;
-                let min = state.stack.pop_bigint()?;
                 let max = state.stack.pop_bigint()?;
+                let min = state.stack.pop_bigint()?;
+                let x = state.stack.pop_bigint()?;
 
-                state.stack.push_bool(x >= min && x <= max)?;
+                state.stack.push_bool(x >= min && x < max)?;
             }
             OpCodes::OP_NUM2BIN => {
                 let length = state.stack.pop_number()?;
